@@ -25,6 +25,7 @@ const (
 	failModified = 2 // receiver modified by observer / enumerable / algebra
 	failCallback = 3 // callback log disagrees with the iterator walk / result
 	failTimeout  = 4 // call did not return
+	failNonZero  = 6 // a (value, ok) result with ok == false carries a non-zero value
 	failUnsound  = 5 // a derived container (Select / Map / set-algebra result) misbehaves when it is used afterwards
 )
 
@@ -68,9 +69,14 @@ func opairs(l [][2]int) string {
 }
 
 // (value, ok) results
+// (value, ok) results: the documented not-found answer is (zero value, false).  A non-zero value next to
+// ok == false is reported as the harness-detected failure 6 (the model always answers "()").
 func oopt(v int, ok bool) string {
 	if ok {
 		return "(" + strconv.Itoa(v) + ")"
+	}
+	if v != 0 {
+		return obsFail(failNonZero)
 	}
 	return "()"
 }
@@ -78,6 +84,9 @@ func oopt(v int, ok bool) string {
 func oopt2(k, v int, ok bool) string {
 	if ok {
 		return opair(k, v)
+	}
+	if k != 0 || v != 0 {
+		return obsFail(failNonZero)
 	}
 	return "()"
 }
